@@ -200,6 +200,7 @@ type Endpoint struct {
 	wake     chan struct{}
 	maxQueue int
 	peer     *net.UDPAddr // default destination for Write
+	werr     error        // when set, writes fail with it while reads go on
 }
 
 var _ net.Conn = (*Endpoint)(nil)
@@ -228,6 +229,10 @@ func (e *Endpoint) SetSource(a *net.UDPAddr) {
 	e.addr = a
 	e.mu.Unlock()
 }
+
+// FailWrites makes every later write of this socket fail with err (a refused
+// destination, a full send buffer) while reads keep being served.
+func (e *Endpoint) FailWrites(err error) { e.mu.Lock(); e.werr = err; e.mu.Unlock() }
 
 // SetPeer sets the default destination of Write.
 func (e *Endpoint) SetPeer(a *net.UDPAddr) { e.mu.Lock(); e.peer = a; e.mu.Unlock() }
@@ -286,6 +291,11 @@ func (e *Endpoint) WriteMsgUDP(b, oob []byte, addr *net.UDPAddr) (n, oobn int, e
 	if e.closed {
 		e.mu.Unlock()
 		return 0, 0, ErrClosed
+	}
+	if e.werr != nil {
+		err := e.werr
+		e.mu.Unlock()
+		return 0, 0, err
 	}
 	src := e.addr
 	if addr == nil {
